@@ -62,6 +62,7 @@ func (br *bodyRun) call(st *State, x ssa.CallInstruction, b *ssa.BasicBlock, idx
 			fc.assume(st, app(">=", na, st.alloc))
 			st.alloc = na
 			br.havocInferred(st, merged.keys, fns[0], args, c.Args)
+			br.havocInteriorArgs(st, args)
 			if merged.locks {
 				fc.havocHeld(st)
 			}
@@ -234,6 +235,7 @@ func (br *bodyRun) callStatic(st *State, fn *ssa.Function, bindings []Val, argVa
 		fc.assume(st, app(">=", na, st.alloc))
 		st.alloc = na
 		br.havocInferred(st, fr.keys, fn, args, argVals)
+		br.havocInteriorArgs(st, args)
 		if fr.locks {
 			fc.havocHeld(st)
 		}
@@ -245,6 +247,34 @@ func (br *bodyRun) callStatic(st *State, fn *ssa.Function, bindings []Val, argVa
 	fc.note("call to %s at %s: no contract, heap havoc'd (%s)", full, fc.posStr(x.Pos()), fr.why)
 	fc.havocAll(st)
 	return fc.freshTyped(st, rt, "call")
+}
+
+// havocInteriorArgs: a pointer to a by-value struct field (&x.f) handed to a callee whose frame
+// is type based. The callee sees an object of the field's type and its writes are recorded
+// under that type's heap keys; in the caller the same memory is named by the enclosing struct.
+// Whatever the callee may have written there is therefore forgotten on the caller's side.
+func (br *bodyRun) havocInteriorArgs(st *State, args []Val) {
+	fc := br.fc
+	for _, a := range args {
+		p, ok := a.(PtrV)
+		if !ok || p.Kind != PObj || len(p.Path) == 0 {
+			continue
+		}
+		func() {
+			defer func() { recover() }()
+			_, t := pathNames(p.Root, p.Path)
+			if _, isStruct := t.Underlying().(*types.Struct); !isStruct {
+				return
+			}
+			if fc.isStablePath(p) {
+				return
+			}
+			v := fc.fresh(t, "interior")
+			fc.store(st, p, t, v)
+			fc.assume(st, fc.typeInv(st, t, v))
+			fc.note("a pointer to a by-value struct field is passed to a callee with a type-based frame: the field is havoc'd in the caller")
+		}()
+	}
 }
 
 // havocInferred havocs the keys of an inferred frame. The cells of the calling function's own
@@ -599,6 +629,7 @@ func (br *bodyRun) applyContract(st *State, ct *Contract, key string, names []st
 					fc.havocKey(st, k, fr.keys[k])
 				}
 				restore()
+				br.havocInteriorArgs(st, args)
 				if fr.locks {
 					fc.havocHeld(st)
 				}
